@@ -3,16 +3,20 @@ import J5V.Codec.Decode
 /-!
 # Decidable well-formedness predicates for the structure-level theorems
 
-* `Env.simple` — the class of environments the structure-level round trip is proved for so far:
-  every property has a one-element proto path (no flattened objects, no exposed oneofs), no `Any`,
-  array / map items are scalars, enums, objects or oneofs, JSON names and field numbers are distinct
-  inside a root, object properties are not members of an anonymous proto oneof, and no member of a
-  oneof is called `!type`.
-* `valOk` — "representable message" (C01's quantifier), schema directed: stores are sorted and hold
-  only fields the schema addresses, with values of the right shape; scalars are `scalarRepr` with
-  valid UTF-8 and decimals in `decimal.String()` normal form; enum numbers are defined; lists and
-  maps are non-empty, map keys distinct valid UTF-8; a oneof has at most one member set; implicit
-  presence fields are never stored with their zero value.
+* `valOk` — "representable message" (C01's quantifier), schema directed and **general** (every
+  construct of the schema language): stores are sorted and hold only fields the schema addresses —
+  as the final field of a property (`path = [k]`), as the member of an exposed oneof (a property
+  with an empty path whose oneof lives in the same message), or as a flattened sub-message (an
+  interior field of longer paths; it must be non-empty: C01 treats an empty flattened sub-object
+  as absent) — with values of the right shape; scalars are `scalarRepr` with valid UTF-8 and
+  decimals in `decimal.String()` normal form; enum numbers are defined; lists and maps are
+  non-empty, map keys distinct valid UTF-8; a oneof (wrapper, exposed or anonymous proto oneof) has
+  at most one member set; implicit presence fields are never stored with their zero value.
+* `Env.simple` — one-element proto paths only (no flattened objects, no exposed oneofs), no `Any`,
+  no anonymous proto oneof in objects.
+* `Env.plain` ⊇ `Env.simple` — the class the structure-level round trip is proved for: additionally
+  **anonymous proto oneofs** in objects (`group`) and **exposed oneofs** (empty path). Still
+  excluded: flattened objects (paths longer than one), `Any`.
 -/
 namespace J5V.Codec
 open J5V.Json
@@ -50,6 +54,73 @@ def Env.simple (env : Env) : Bool :=
     | .object ps | .oneof ps => ps.all (fun p => isValidUtf8 p.jsonName)
     | _ => true)
 
+/-! ## exposed oneofs, flattened objects -/
+
+/-- the members of the oneof behind an exposed-oneof property (empty path: the oneof is a view of
+the same message); `[]` for every other property -/
+def exposedOps (env : Env) (p : PropDef) : List PropDef :=
+  match p.path, p.field with
+  | [], .oneof ref =>
+    match env.find ref with
+    | some (.oneof ops) => ops
+    | _ => []
+  | _, _ => []
+
+/-- the top-level field numbers a property addresses as leaves of its message: its own final
+field (one-element path) or the member fields of an exposed oneof -/
+def propKeys (env : Env) (p : PropDef) : List Nat :=
+  match p.path with
+  | [k] => [k]
+  | [] => (exposedOps env p).filterMap fun q => match q.path with | [k] => some k | _ => none
+  | _ => []
+
+/-- the property that owns top-level field `k` as a leaf -/
+def leafProp (env : Env) (props : List PropDef) (k : Nat) : Option PropDef :=
+  match props.find? (fun p => p.path == [k]) with
+  | some p => some p
+  | none => props.findSome? fun p => (exposedOps env p).find? (fun q => q.path == [k])
+
+/-- the properties inlined from the flattened message at field `k`, re-rooted at that message -/
+def propsUnder (k : Nat) (props : List PropDef) : List PropDef :=
+  props.filterMap fun p =>
+    match p.path with
+    | k' :: k2 :: r => if k' = k then some { p with path := k2 :: r } else none
+    | _ => none
+
+def isSet (fs : Fields) (p : PropDef) : Bool := (getPath fs p.path).isSome
+
+/-- at most one member of every real proto oneof is set -/
+def groupsOk (props : List PropDef) (fs : Fields) : Bool :=
+  props.all fun p => props.all fun q =>
+    !(p.group.isSome && p.group == q.group && p.path.dropLast == q.path.dropLast && p.path != q.path &&
+      isSet fs p && isSet fs q)
+
+/-- at most one member of every exposed oneof is set -/
+def exposedOk (env : Env) (props : List PropDef) (fs : Fields) : Bool :=
+  props.all fun p => decide (((exposedOps env p).filter (isSet fs)).length ≤ 1)
+
+/-- an exposed-oneof property whose reference resolves -/
+def propExposed (env : Env) (p : PropDef) : Bool :=
+  p.path.isEmpty && p.group.isNone &&
+  (match p.field with
+   | .oneof ref =>
+     match env.find ref with
+     | some (.oneof _) => true
+     | _ => false
+   | _ => false)
+
+def rootPlain (env : Env) : Root → Bool
+  | .object ps =>
+    ps.all (fun p => propSimple p || propExposed env p) &&
+    decide ((ps.map (·.jsonName)).Nodup) && decide ((ps.flatMap (propKeys env)).Nodup)
+  | r => rootSimple r
+
+def Env.plain (env : Env) : Bool :=
+  env.defs.all (fun d => rootPlain env d.2) &&
+  env.defs.all (fun d => match d.2 with
+    | .object ps | .oneof ps => ps.all (fun p => isValidUtf8 p.jsonName)
+    | _ => true)
+
 def fieldNoAny : Field → Bool
   | .any _ => false
   | .array i => fieldNoAny i
@@ -78,7 +149,8 @@ def valOk (env : Env) (O : Oracle) : Field → PVal → Bool
     match fld with
     | .object ref =>
       match env.find ref with
-      | some (.object props) => asorted fs && fieldsOk env O props fs
+      | some (.object props) =>
+        asorted fs && fieldsOk env O props fs && groupsOk props fs && exposedOk env props fs
       | _ => false
     | .oneof ref =>
       match env.find ref with
@@ -107,9 +179,15 @@ def valOk (env : Env) (O : Oracle) : Field → PVal → Bool
 def fieldsOk (env : Env) (O : Oracle) (props : List PropDef) : List (Nat × PVal) → Bool
   | [] => true
   | (k, v) :: rest =>
-    (match props.find? (fun p => p.path == [k]) with
+    (match leafProp env props k with
      | some p => valOk env O p.field v && !(p.pres == .imp && v.isZero)
-     | none => false) && fieldsOk env O props rest
+     | none =>
+       -- a flattened sub-message: non-empty, its fields belong to the inlined properties
+       match v with
+       | .msg sub =>
+         !sub.isEmpty && asorted sub && !(propsUnder k props).isEmpty &&
+           fieldsOk env O (propsUnder k props) sub
+       | _ => false) && fieldsOk env O props rest
 def listOk (env : Env) (O : Oracle) (item : Field) : List PVal → Bool
   | [] => true
   | v :: rest => valOk env O item v && listOk env O item rest
